@@ -226,9 +226,14 @@ def x_declared(form, api):
     head = sx.mk_bytes([b0]) + bytes([126 if form == 16 else 127]) + L
     sock = FakeSock([head + b"abc", "timeout", "eof"])
     ws = new_ws(sock)
+    declared = sx.from_bytes_be(L)
     for attempt in range(3):
         try:
-            getattr(ws, api)()
+            r = getattr(ws, api)()
+            # a result may only be returned when the declared payload really arrived (3 bytes are available)
+            sx.require(declared <= 3, "a frame / message is returned although fewer bytes arrived than the header declares", form=form, api=api)
+            if api == "recv_frame":
+                sx.require(len(r.data) == declared, "returned payload has the declared length", form=form)
         except (WebSocketTimeoutException,):
             continue
         except (WebSocketConnectionClosedException, WebSocketProtocolException, WebSocketPayloadException):
@@ -240,6 +245,12 @@ def x_declared(form, api):
             return
     _check_reqs(sock, "declared %d-bit length" % form)
     cover("declared")
+
+
+def x_resume(form, masked):
+    """a result returned after a receive timeout inside the frame header is consistent with the bytes consumed (shared with C02 R-resume)"""
+    from .c02 import r_resume
+    return r_resume(form, masked)
 
 
 def obligations(tier):
@@ -272,6 +283,9 @@ def obligations(tier):
                    bounds="EVERY frame-phase stream of 0..%d bytes followed by end of stream or silence, through recv / recv_data / recv_data_frame" % (8 if thorough else 6),
                    must_cover=["frame-closed", "frame-rejected"], budget_s=3000,
                    kernel=["WebSocket.recv", "recv_data", "recv_data_frame", "frame_buffer.*", "ABNF.validate", "continuous_frame.*", "_socket.recv"]),
+        Obligation("X-resume", x_resume, [dict(form=f, masked=m) for f in (16, 64) for m in (0, 1)],
+                   bounds="16-/64-bit length frames with one receive timeout (silence) after every possible number of header bytes, then the rest",
+                   must_cover=["resumed"], kernel=["frame_buffer.recv_frame", "recv_length", "recv_mask"]),
         Obligation("X-declared", x_declared, [dict(form=f, api=a) for f in (16, 64) for a in ("recv_frame", "recv")],
                    bounds="ALL declared 16-bit and 64-bit payload lengths (symbolic length field), any first byte", must_cover=["declared"],
                    kernel=["frame_buffer.recv_strict"]),
